@@ -39,7 +39,7 @@ def run(ck):
     ck.trusted += ["harness/c07.py; model QV/Model/Prop.lean (genOps/genTensor) validated on generated inputs",
                    "the line-shape function g(t) of the analytic comparison is computed by the package's own c2g (double spline integral); "
                    "the comparison tolerance (time-step error) is a test, not a theorem"]
-    ck.prove(PROPS, extra_modules=["QV.Drive.Prop"], also=["QV.Props.C07Limits"])
+    ck.prove(PROPS, extra_modules=["QV.Drive.Prop"], also=["QV.Props.C07Limits", "QV.Props.C07Basis"])
     lines, impl, tol = [], [], []
     cv = lambda a: SY.cvals(numpy, a)
 
@@ -76,6 +76,27 @@ def run(ck):
             if numpy.abs(va - vb).max() > 1e-9 * max(sc, numpy.abs(numpy.array(RT_t.data)).max()):
                 ck.fail("apply:ops-vs-tensor%s" % (":context" if ctx else ""), "operator form and tensor form act differently on an operator",
                         dict(inp, in_context=ctx), float(numpy.abs(va - vb).max()))
+        # covariance (Lean: transform_apply / applyOps_transform): acting inside the context on the transformed operand gives the
+        # transformed result of acting outside; the operands are transformed by the package itself
+        for form_, RT_ in (("tensor", RT_t), ("operators", RT_o)):
+            try:
+                A = randop(n)
+                o_site = Operator(data=A.copy())
+                v_site = RT_.apply(o_site)
+                v_out = numpy.array(v_site.data)
+                with eigenbasis_of(ham):
+                    w_in = numpy.array(RT_.apply(o_site).data)
+                    v_in = numpy.array(v_site.data)
+                v_back = numpy.array(v_site.data)
+                sc = max(1e-300, float(numpy.abs(v_out).max()))
+                if numpy.abs(w_in - v_in).max() > 1e-9 * max(sc, 1.0):
+                    ck.fail("apply:covariance:%s" % form_, "acting inside eigenbasis_of on the transformed operator differs from the transformed result of "
+                            "acting outside (%s form)" % form_, dict(inp, A=[[str(z) for z in r] for r in A]), float(numpy.abs(w_in - v_in).max()))
+                if numpy.abs(v_back - v_out).max() > 1e-9 * max(sc, 1.0):
+                    ck.fail("apply:covariance:restore:%s" % form_, "the result of apply() is not restored after a basis context (%s form)" % form_,
+                            dict(inp, A=[[str(z) for z in r] for r in A]), float(numpy.abs(v_back - v_out).max()))
+            except Exception as e:
+                ck.fail("raises:apply:covariance", "apply inside/outside a basis context raised %r" % (e,), dict(inp, form=form_))
         # apply(..., copy=False): the result is written to the operand; operands with real- and integer-typed data as well
         for dtname, mk_ in (("float", lambda: numpy.array([[float(rng.randint(-4, 4)) for _ in range(n)] for _ in range(n)])),
                             ("int", lambda: numpy.array([[rng.randint(-4, 4) for _ in range(n)] for _ in range(n)], dtype=int)),
